@@ -44,10 +44,10 @@ UNKNOWN = ["NOOP", "FEAT", "STAT", "HELP", "SITE CHMOD 777 x", "XPWD", "", "ACCT
            "SIZE /top.txt", "MDTM /top.txt", "ALLO 10", "MODE S", "STRU F"]
 
 
-def aioftp_users(spec, base):
+def aioftp_users(spec, base, limit=None):
     out = []
     for login, pw in spec.items():
-        out.append(aioftp.User(login, pw, base_path=base))
+        out.append(aioftp.User(login, pw, base_path=base, **({"maximum_connections": limit} if limit else {})))
     return out
 
 
@@ -172,8 +172,17 @@ class Gen:
 async def run_sequence(net, hyg, plan):
     users = USERS_A if plan.get("users", "A") == "A" else USERS_B
     backend = plan.get("backend", "memory")
-    w = W.World(net, tree=TREE0, backend=backend, users=lambda base: aioftp_users(users, base),
-                block_size=plan.get("block_size", 8192))
+    cfg = plan.get("cfg")       # non-default server configuration that must not change what a single session sees
+    skw = {}
+    if cfg == "wft-none":
+        skw["wait_future_timeout"] = None       # unlimited wait for the data connection ("never" is not generated with it)
+    elif cfg == "limits":
+        skw["maximum_connections"] = 1
+    elif cfg == "timeouts":
+        skw.update(idle_timeout=50, socket_timeout=40, path_timeout=30, wait_future_timeout=2.5)
+    w = W.World(net, tree=TREE0, backend=backend,
+                users=lambda base: aioftp_users(users, base, limit=1 if cfg == "limits" else None),
+                block_size=plan.get("block_size", 8192), **skw)
     await w.start()
     viol = []
     mon = {"reply_vs_model": 0, "tree_vs_model": 0, "silence": 0, "alive": 0, "content": 0}
@@ -203,6 +212,8 @@ async def run_sequence(net, hyg, plan):
             else:
                 verb, arg, data, cls = gen.next(m)
             is_xfer = verb in ("RETR", "STOR", "APPE", "LIST", "MLSD")
+            if cfg == "wft-none" and data == "never":
+                data = "after"
             if is_xfer and stale and m.passive and m.logged:
                 # be a normal client: renew the passive state before the next transfer
                 for pv in ("EPSV",):
@@ -375,7 +386,8 @@ def gen_cases(tier, seed):
     nrand = 600 if tier == "quick" else 60000
     for i in range(nrand):
         cases.append({"plan": {"seed": seed * 1000003 + i, "length": 30, "users": "A" if i % 3 else "B",
-                               "mss": [1460, 1460, 7, 64][i % 4], "block_size": [8192, 512, 7][i % 3]}})
+                               "mss": [1460, 1460, 7, 64][i % 4], "block_size": [8192, 512, 7][i % 3],
+                               "cfg": [None, None, "wft-none", "limits", "timeouts"][i % 5]}})
     login = [("USER", "anonymous", None, "user")]
     L = 2 if tier == "quick" else 3
     stride = 1
@@ -416,6 +428,13 @@ def gen_cases(tier, seed):
                 seq = [("USER", "bob", None, "user") if x is A else x for x in seq]
             cases.append({"plan": {"seed": seed, "users": users,
                                    "commands": [list(x) for x in seq + [("PWD", "", None, "plain")]]}})
+            for cfg in ("wft-none", "limits", "timeouts"):
+                cases.append({"plan": {"seed": seed, "users": users, "cfg": cfg,
+                                       "commands": [list(x) for x in seq + [("PWD", "", None, "plain")]]}})
+    # pairs under non-default server configurations (a third of them each)
+    for k, seq in enumerate(itertools.product(ALPHABET, repeat=2)):
+        cfg = ["wft-none", "limits", "timeouts"][k % 3]
+        cases.append({"plan": {"seed": seed, "cfg": cfg, "commands": [list(x) for x in login + list(seq) + [("PWD", "", None, "plain")]]}})
     if tier == "thorough":
         for i in range(300):
             cases.append({"plan": {"seed": seed * 7 + i, "length": 25, "backend": "pathio" if i % 2 else "async", "users": "A"}})
